@@ -72,21 +72,21 @@ def strip_indicator(cfg):
     return c
 
 
-def build_config(rng, d):
+def build_config(rng, d, directed=False):
     rows, cols = int(rng.integers(8, 22)), int(rng.integers(10, 26))
     nb = 1 if rng.random() < 0.65 else 3
     l, r = gen.stereo_pair(rng, rows, cols, gen.TEXTURES[int(rng.integers(0, 5))], max_shift=2, bands=nb)
-    geo = bool(rng.integers(0, 2))
+    geo = bool(rng.integers(0, 2)) or directed
     names = ["r", "g", "b"] if nb == 3 else None
     left = {"img": rasters.write_tif(os.path.join(d, "left.tif"), l, descriptions=names, georef=geo)}
-    shifted = geo and rng.random() < 0.6
+    shifted = geo and (rng.random() < 0.6 or directed)
     right = {"img": rasters.write_tif(os.path.join(d, "right.tif"), r, descriptions=names, georef=geo,
                                       origin=(500012.5, 4800003.0) if shifted else (500000.0, 4800000.0))}
     if rng.random() < 0.3:
         left["mask"] = rasters.write_tif(os.path.join(d, "lmask.tif"), (rng.random((rows, cols)) < 0.1).astype(np.int16), "int16")
     if rng.random() < 0.3:
         left["nodata"] = "NaN" if rng.random() < 0.5 else 0
-    validation = rng.random() < 0.55
+    validation = rng.random() < 0.55 or directed
     use_grid = rng.random() < 0.35
     if use_grid:
         gmin, gmax = gen.grids(rng, rows, cols, -3, 2, "random")
@@ -187,7 +187,7 @@ def run_case(case, ctx):
 
     rng = ctx.rng(case["work"], case["part"], case["i"])
     d = os.path.join(ctx.workdir, f"{case['work']}{case['i']}")
-    user, desc = build_config(rng, d)
+    user, desc = build_config(rng, d, directed=(case["i"] == 0 and case["work"] == "cli"))
     cfg_path = os.path.join(d, "user.json")
     os.makedirs(d, exist_ok=True)
     with open(cfg_path, "w") as f:
